@@ -193,6 +193,9 @@ class C19(core.Check):
             for tx in texts:
                 cases.append(dict(tag=tag, prop=prop, state=['html', tx]))
             cases.append(dict(tag=tag, prop=prop, state=['html', None]))      # the value-less spelling, for every cell in both tiers
+            if self.tier != 'thorough':
+                cases.append(dict(tag=tag, prop=prop, state=['html', '']))    # ... and the empty value
+                cases.append(dict(tag=tag, prop=prop, state=['dot', '']))
             texts = CORPUS if self.tier == 'thorough' else rng.sample(CORPUS, 2)
             for tx in texts:
                 cases.append(dict(tag=tag, prop=prop, state=['dot', tx]))
